@@ -125,7 +125,23 @@ class Universe:
         return g.inputs if c["k"] == "in" else g.outputs
 
     # ---- one spec call -> one public call ----------------------------------------------------
+    def _ret(self, x) -> None:
+        """Remember what the public call returned, as a token (objects by their harness number)."""
+        self.last_ret = self._tok(x)
+
+    def _tok(self, x):
+        if x is None or isinstance(x, (bool, int, str)):
+            return x
+        if isinstance(x, ir.Value):
+            return ["V", self.vid(x)]
+        if isinstance(x, ir.Node):
+            return ["N", self.nid(x)]
+        if isinstance(x, (tuple, list)):
+            return [self._tok(y) for y in x]
+        return ["obj", type(x).__name__]
+
     def apply(self, c: dict) -> str:
+        self.last_ret = None
         try:
             self._dispatch(c)
         except Exception as e:  # noqa: BLE001 - the outcome class is what is observed
@@ -135,17 +151,17 @@ class Universe:
     def _dispatch(self, c: dict) -> None:
         op = c["op"]
         if op == "IOAppend":
-            self._io(c).append(self.V(c["v"]))
+            self._ret(self._io(c).append(self.V(c["v"])))
         elif op == "IOExtend":
-            self._io(c).extend(self._seq(self.V(x) for x in c["vs"]))
+            self._ret(self._io(c).extend(self._seq(self.V(x) for x in c["vs"])))
         elif op == "IOInsert":
-            self._io(c).insert(c["i"], self.V(c["v"]))
+            self._ret(self._io(c).insert(c["i"], self.V(c["v"])))
         elif op == "IOPop":
-            self._io(c).pop(c["i"])
+            self._ret(self._io(c).pop(c["i"]))
         elif op == "IORemove":
-            self._io(c).remove(self.V(c["v"]))
+            self._ret(self._io(c).remove(self.V(c["v"])))
         elif op == "IOClear":
-            self._io(c).clear()
+            self._ret(self._io(c).clear())
         elif op == "IOSetItem":
             self._io(c)[c["i"]] = self.V(c["v"])
         elif op == "IOSetSlice":
@@ -161,7 +177,7 @@ class Universe:
             lst = self._io(c)
             lst += [self.V(x) for x in c["vs"]]
         elif op == "IOReverse":
-            self._io(c).reverse()
+            self._ret(self._io(c).reverse())
         elif op == "InitSet":
             self.G(c["g"]).initializers[_pyname(c["name"])] = self.V(c["v"])
         elif op == "InitIor":
@@ -170,21 +186,21 @@ class Universe:
         elif op == "InitDel":
             del self.G(c["g"]).initializers[c["name"]]
         elif op == "InitPop":
-            self.G(c["g"]).initializers.pop(c["name"])
+            self._ret(self.G(c["g"]).initializers.pop(c["name"]))
         elif op == "InitPopitem":
-            self.G(c["g"]).initializers.popitem()
+            self._ret(self.G(c["g"]).initializers.popitem())
         elif op == "InitClear":
-            self.G(c["g"]).initializers.clear()
+            self._ret(self.G(c["g"]).initializers.clear())
         elif op == "InitAdd":
-            self.G(c["g"]).initializers.add(self.V(c["v"]))
+            self._ret(self.G(c["g"]).initializers.add(self.V(c["v"])))
         elif op == "Register":
-            self.G(c["g"]).register_initializer(self.V(c["v"]))
+            self._ret(self.G(c["g"]).register_initializer(self.V(c["v"])))
         elif op == "SetName":
             self.V(c["v"]).name = _pyname(c["name"])
         elif op == "ReplaceInput":
-            self.N(c["n"]).replace_input_with(c["i"], self.V(c["v"]))
+            self._ret(self.N(c["n"]).replace_input_with(c["i"], self.V(c["v"])))
         elif op == "ResizeInputs":
-            self.N(c["n"]).resize_inputs(c["i"])
+            self._ret(self.N(c["n"]).resize_inputs(c["i"]))
         elif op == "ResizeOutputs":
             n = self.N(c["n"])
             try:
@@ -192,31 +208,31 @@ class Universe:
             finally:
                 self._adopt_fresh_outputs(n)
         elif op == "GAppend":
-            self.GF(c["g"]).append(self.N(c["n"]))
+            self._ret(self.GF(c["g"]).append(self.N(c["n"])))
         elif op == "GExtend":
-            self.GF(c["g"]).extend(self._seq(self.N(x) for x in c["vs"]))
+            self._ret(self.GF(c["g"]).extend(self._seq(self.N(x) for x in c["vs"])))
         elif op == "GInsertBefore":
             ns = [self.N(x) for x in c["vs"]]
-            self.GF(c["g"]).insert_before(self.N(c["n"]), ns[0] if len(ns) == 1 and c["flag"] else self._seq(ns))
+            self._ret(self.GF(c["g"]).insert_before(self.N(c["n"]), ns[0] if len(ns) == 1 and c["flag"] else self._seq(ns)))
         elif op == "GInsertAfter":
             ns = [self.N(x) for x in c["vs"]]
-            self.GF(c["g"]).insert_after(self.N(c["n"]), ns[0] if len(ns) == 1 and c["flag"] else self._seq(ns))
+            self._ret(self.GF(c["g"]).insert_after(self.N(c["n"]), ns[0] if len(ns) == 1 and c["flag"] else self._seq(ns)))
         elif op == "GRemove":
             ns = [self.N(x) for x in c["vs"]]
-            self.GF(c["g"]).remove(ns[0] if len(ns) == 1 else self._seq(ns), safe=bool(c["flag"]))
+            self._ret(self.GF(c["g"]).remove(ns[0] if len(ns) == 1 else self._seq(ns), safe=bool(c["flag"])))
         elif op == "GSort":
-            self.GF(c["g"]).sort()
+            self._ret(self.GF(c["g"]).sort())
         elif op == "NodePrepend":
             ns = [self.N(x) for x in c["vs"]]
-            self.N(c["n"]).prepend(ns[0] if len(ns) == 1 and self.via_function else ns)
+            self._ret(self.N(c["n"]).prepend(ns[0] if len(ns) == 1 and self.via_function else ns))
         elif op == "NodeAppend":
             ns = [self.N(x) for x in c["vs"]]
-            self.N(c["n"]).append(ns[0] if len(ns) == 1 and self.via_function else ns)
+            self._ret(self.N(c["n"]).append(ns[0] if len(ns) == 1 and self.via_function else ns))
         elif op == "InitSetdefault":
-            self.G(c["g"]).initializers.setdefault(_pyname(c["name"]), self.V(c["v"]))
+            self._ret(self.G(c["g"]).initializers.setdefault(_pyname(c["name"]), self.V(c["v"])))
         elif op == "InitUpdate2":
             v, w = self.V(c["v"]), self.V(c["w"])
-            self.G(c["g"]).initializers.update([(v.name, v), (w.name, w)])
+            self._ret(self.G(c["g"]).initializers.update([(v.name, v), (w.name, w)]))
         elif op == "NewNode":
             ins = [self.V(x) for x in c["vs"]]
             k = len(self.nodes) + 1
@@ -229,7 +245,7 @@ class Universe:
             self._add_node(node)
             self._adopt_fresh_outputs(node)
         elif op == "ReplaceAllUses":
-            self.V(c["v"]).replace_all_uses_with(self.V(c["w"]), replace_graph_outputs=bool(c["flag"]))
+            self._ret(self.V(c["v"]).replace_all_uses_with(self.V(c["w"]), replace_graph_outputs=bool(c["flag"])))
         else:
             raise AssertionError(f"unknown op {op}")
 
